@@ -189,10 +189,11 @@ class Domain:
 
 
 class _Frame:
-    __slots__ = ("func", "returns", "yields", "ret_states", "loops", "try_acc", "parent_env", "depth")
+    __slots__ = ("func", "returns", "yields", "ret_states", "loops", "try_acc", "parent_env", "depth", "callnode")
 
-    def __init__(self, func, depth, parent_env=None):
+    def __init__(self, func, depth, parent_env=None, callnode=None):
         self.func = func
+        self.callnode = callnode
         self.returns = []
         self.yields = []
         self.ret_states = []
@@ -222,7 +223,7 @@ class Interp:
 
     # ------------------------------------------------------------------ heap
     def alloc(self, st: State, kind, node, slots=None, elem=None, meta=None) -> int:
-        ctx = tuple(id(fr.func) for fr in self.stack[-3:]) + tuple(self.iter_ctx)
+        ctx = tuple((id(fr.func), id(fr.callnode)) for fr in self.stack[-3:]) + tuple(self.iter_ctx)
         addr = (id(node), ctx, kind)
         st.put(addr, Obj(kind, slots or {}, elem, meta))
         return addr
@@ -329,7 +330,7 @@ class Interp:
         return True
 
     # -------------------------------------------------------------- functions
-    def run_function(self, func: Func, args: dict, st: State = None, parent_env=None) -> tuple:
+    def run_function(self, func: Func, args: dict, st: State = None, parent_env=None, callnode=None) -> tuple:
         """Analyse `func` with parameter bindings `args` (name -> V).  Returns (ret V, state)."""
         st = st if st is not None else State()
         if len(self.stack) >= self.max_depth or any(fr.func is func for fr in self.stack):
@@ -350,7 +351,7 @@ class Interp:
                 else:
                     env[p] = V(self.d.param(func, p, i))
         st.env = env
-        fr = _Frame(func, len(self.stack), parent_env if parent_env is not None else self.closures.get(id(func)))
+        fr = _Frame(func, len(self.stack), parent_env if parent_env is not None else self.closures.get(id(func)), callnode)
         self.stack.append(fr)
         self.d.enter_function(self, func, st)
         try:
@@ -751,8 +752,12 @@ class Interp:
             self.d.on_store(self, "subscript", base, key if key is not _NOKEY else None, v, stmt, st)
             o = self.mobj(st, base)
             if o is not None:
+                sl = target.slice
                 if key is not _NOKEY and o.kind in ("dict", "obj", "unknown", "list", "tuple"):
                     o.slots[key] = v  # strong update
+                elif o.kind == "array" and isinstance(sl, ast.Tuple) and sl.elts and isinstance(sl.elts[-1], ast.Constant) and isinstance(sl.elts[-1].value, int) and not isinstance(sl.elts[-1].value, bool):
+                    ck = ("col", sl.elts[-1].value)  # arr[i, c] = v: per-column summary (weak over rows)
+                    o.slots[ck] = v if ck not in o.slots else self.join_v(o.slots[ck], v, st)
                 else:
                     o.elem = v if o.elem is None else self.join_v(o.elem, v, st)
             s2 = getattr(self.d, "store_into_scalar", None)
@@ -1099,8 +1104,12 @@ class Interp:
 
     def e_BoolOp(self, e, st):
         out = None
-        for x in e.values:
+        h = getattr(self.d, "boolop_operand", None)
+        n = len(e.values)
+        for i, x in enumerate(e.values):
             v = self.eval(x, st)
+            if h is not None:
+                v = h(self, e.op, v, i == n - 1, st)
             out = v if out is None else self.join_v(out, v, st)
         return out
 
@@ -1311,7 +1320,7 @@ class Interp:
             out = None
             for g in cs.callees:
                 sc = st.copy()
-                r, s2 = self.run_function(g, self._bind(g, args, kwargs, st), sc)
+                r, s2 = self.run_function(g, self._bind(g, args, kwargs, st), sc, callnode=e)
                 keepenv = st.env
                 merged = self.join_states(st, s2)
                 st.store, st.owned, st.env = merged.store, merged.owned, keepenv
@@ -1386,7 +1395,7 @@ class Interp:
         if self.inline_filter is not None and not self.inline_filter(g):
             return self.d.call_unknown(self, node, args, kwargs, st)
         env = st.env
-        r, s2 = self.run_function(g, self._bind(g, args, kwargs, st), st)
+        r, s2 = self.run_function(g, self._bind(g, args, kwargs, st), st, callnode=node)
         st.store = s2.store
         st.owned = s2.owned
         st.env = env
